@@ -248,6 +248,38 @@ VH_OP(ply_rth) {
   return vh::hex(f) + " | " + read_ply(f, a[1] == "1");
 }
 
+// ---- decoder-object histories: ONE ObjDecoder / PlyDecoder object reads file A (result dropped), then file B
+//   obj_dech / ply_dech <as_mesh> <hex of file A> <hex of file B>   -> as obj_dec / ply_dec on file B
+namespace {
+template <class DecT>
+std::string read_twice(const Bytes &fa, const Bytes &fb, bool as_mesh) {
+  DecT dec;
+  {
+    DecoderBuffer b;
+    b.Init(reinterpret_cast<const char *>(fa.data()), fa.size());
+    if (as_mesh) {
+      Mesh m;
+      (void)dec.DecodeFromBuffer(&b, &m);
+    } else {
+      PointCloud pc;
+      (void)dec.DecodeFromBuffer(&b, &pc);
+    }
+  }
+  DecoderBuffer b;
+  b.Init(reinterpret_cast<const char *>(fb.data()), fb.size());
+  if (as_mesh) {
+    Mesh m;
+    if (!dec.DecodeFromBuffer(&b, &m).ok()) return "ERR";
+    return vh::dump_geometry(&m, &m);
+  }
+  PointCloud pc;
+  if (!dec.DecodeFromBuffer(&b, &pc).ok()) return "ERR";
+  return vh::dump_geometry(&pc, nullptr);
+}
+}  // namespace
+VH_OP(obj_dech) { return read_twice<ObjDecoder>(vh::unhex(a[2]), vh::unhex(a[3]), a[1] == "1"); }
+VH_OP(ply_dech) { return read_twice<PlyDecoder>(vh::unhex(a[2]), vh::unhex(a[3]), a[1] == "1"); }
+
 // ---------------------------------------------------------------- command line tools
 
 namespace {
